@@ -72,6 +72,36 @@ def gen_cases(cls, rng, tier):
             steps.append("scr %d con %d %d 73" % (k, g.n, g.n))
         steps += [lp, "snap"]
         cases.append(Case("mN%s%d" % (cls, i), cls, steps, dict(kind="node-created-and-wired-inside-the-closure")))
+    # scripted traversals WITH a target: what runs after the walk found it (path building, node hand-out) then sees a graph the
+    # closure has changed
+    for i in range(3000 if tier == "thorough" else 300):
+        g = sc.random_graph(cls, rng, maxn=5, maxe=8)
+        root = rng.randrange(g.n)
+        tr = 1 if (cls == "D" and rng.random() < 0.4) else 0
+        algo = rng.choice(["bfs", "dfs", "pmin", "pmax"])
+        what = rng.choice(["path", "path", "find"])
+        tg = g.keys[rng.randrange(g.n)] if rng.random() < 0.9 else 777
+        meth = rng.choice(["each", "each", "filt 1 3"])
+        steps = g.steps()
+        for j in range(rng.randint(1, 3)):
+            steps.append("scr %d %s" % (rng.randint(0, 5), rng.choice(ops_for(g.keys, g.n)[:-1])))
+        steps += ["srch %s %s %d %d %d %s" % (algo, what, root, tr, tg, meth), "snap"]
+        cases.append(Case("mT%s%d" % (cls, i), cls, steps, dict(kind="scripted-traversal-with-target")))
+    # ... and systematically on chains (with a side branch): every edge of the path that will be returned is removed (or
+    # isolated away) at every invocation index, for every algorithm
+    for length in (2, 3):
+        keys = [5, 3, 9, 7, 11][:length + 2]
+        base = ["new %d %d" % (k, i) for i, k in enumerate(keys)]
+        chain = [(i, i + 1) for i in range(length)]
+        base += ["con %d %d %d" % (u, v, 20 + u) for (u, v) in chain] + ["con 0 %d 30" % (length + 1), "con %d %d 31" % (length + 1, length)]
+        for algo in ("bfs", "dfs", "pmin", "pmax"):
+            for what in ("path", "find"):
+                for k in range(0, length + 2):
+                    for (u, v) in chain:
+                        for op in ("dis %d %d" % (u, keys[v]), "iso %d" % v):
+                            steps = base + ["scr %d %s" % (k, op), "srch %s %s 0 0 %d each" % (algo, what, keys[length]), "snap"]
+                            cases.append(Case("mP%s%d" % (cls, idx), cls, steps, dict(kind="path-edge-removed-during-the-walk")))
+                            idx += 1
     # random: several operations at several invocation indices, larger graphs
     for i in range(6000 if tier == "thorough" else 300):
         g = sc.random_graph(cls, rng, maxn=6, maxe=10)
